@@ -38,6 +38,14 @@ def step (st : St) (ts : List String) : St × String :=
       | .sieve s => (st, s!"size={s.size} hits={s.hits} misses={s.misses} cap={s.cap}")
       | .nemap s => (st, s!"size={s.size} hits={s.hits} misses={s.misses} cap={s.cap}")
       | .none => (st, "bad-op")
+  | ["comb"] =>
+      -- Stats().Combined(peer.Stats()) with the harness' fixed peer cache (2 entries, 1 hit, 1 miss, capacity 4): a pure reading
+      let peer : StatsV := { size := 2, hits := 1, misses := 1, cap := 4 }
+      let show_ (v : StatsV) := s!"comb size={v.size} hits={v.hits} misses={v.misses} cap={v.cap}"
+      match st with
+      | .sieve s => (st, show_ (s.stats.combined peer))
+      | .nemap s => (st, show_ (s.stats.combined peer))
+      | .none => (st, "bad-op")
   | ["dump"] => match st with
       -- internal state, compared with the verif-tagged VerifDump hook of the real cache
       | .sieve s =>
